@@ -342,3 +342,25 @@ def iso_table():
             other.add(code)
     _ISO = (functional, other - set(functional))
     return _ISO
+
+
+# ---------------------------------------------------------------------------
+# near-tie solver
+
+def near_tie_multiples(factor, src_q, dst_q, deltas=(0, 1, -1, 2, -2)):
+    """Integers n such that (n * src_q) * factor, measured in multiples of
+    dst_q, is an exact tie (k + 1/2) or as close to a tie as the two grids
+    allow.  These are the inputs on which a second rounding, a pre-rounded
+    factor or a float shortcut becomes visible; they are solved exactly by a
+    modular inverse instead of being searched for."""
+    ratio = F(factor) * F(src_q) / F(dst_q)
+    P, Q = abs(ratio.numerator), ratio.denominator
+    if Q == 1:
+        return []
+    inv = pow(P, -1, Q)
+    out = []
+    for delta in deltas:
+        n = (((Q // 2) + delta) % Q) * inv % Q
+        if n and n not in out:
+            out.append(n)
+    return out
